@@ -6,8 +6,8 @@ CONSTANTS
   USER_NESTS = FALSE
   USER_REMOVES_ENTRIES = FALSE
   USER_RENAMES = TRUE
-  RECHECK_ON_RENAME = FALSE
-  ENTRIES_ARE_DIRS = FALSE
+  RECHECK_ON_RENAME = TRUE
+  ENTRIES_ARE_DIRS = TRUE
   RECHECK_DIRS = TRUE
   FIX_BYUSER = TRUE
 INVARIANTS FdsMatch ListOK AllGone Released CreateOnce Covered
